@@ -176,13 +176,13 @@ func (in *Interp) recordHashApp(name string, t *Term) {
 func (in *Interp) pairAxioms(k, mode int) *Term {
 	st := in.st
 	l, _ := in.extra["hashapps"].([]hashAppRec)
-	ax := st.True
+	ax := st.BNot(st.Eq(l[k].t, st.Const(l[k].t.w, 0))) // an ideal hash never outputs zero
 	P := st.ConstBig(256, feltP)
 	lim := st.Const(256, 251)
 	for i := 0; i < k; i++ {
 		a, b := l[i], l[k]
 		if a.name != b.name || len(a.t.args) != len(b.t.args) {
-			if strings.HasPrefix(a.name, "pos") && strings.HasPrefix(b.name, "pos") {
+			if hashFamily(a.name) == hashFamily(b.name) && a.t.w == b.t.w {
 				ax = st.BAnd(ax, st.BNot(st.Eq(a.t, b.t)))
 			}
 			continue
@@ -208,10 +208,11 @@ func (in *Interp) collisionFreeAxioms() *Term {
 	l, _ := in.extra["hashapps"].([]hashAppRec)
 	ax := st.True
 	for i := 0; i < len(l); i++ {
+		ax = st.BAnd(ax, st.BNot(st.Eq(l[i].t, st.Const(l[i].t.w, 0)))) // an ideal hash never outputs zero
 		for j := i + 1; j < len(l); j++ {
 			if l[i].name != l[j].name || len(l[i].t.args) != len(l[j].t.args) {
-				// different symbols: assume distinct hash functions do not collide either
-				if strings.HasPrefix(l[i].name, "pos") && strings.HasPrefix(l[j].name, "pos") {
+				// same hash function applied to inputs of different length: no collision either
+				if hashFamily(l[i].name) == hashFamily(l[j].name) && l[i].t.w == l[j].t.w {
 					ax = st.BAnd(ax, st.BNot(st.Eq(l[i].t, l[j].t)))
 				}
 				continue
@@ -250,6 +251,17 @@ func (in *Interp) nodeHashSeparationAxioms() *Term {
 		}
 	}
 	return ax
+}
+
+// hashFamily: the hash function behind a symbol ("snkeccak_3" -> "snkeccak", "posN_4"/"pos2" -> "pos").
+func hashFamily(name string) string {
+	if strings.HasPrefix(name, "pos") {
+		return "pos"
+	}
+	if i := strings.LastIndexByte(name, '_'); i > 0 {
+		return name[:i]
+	}
+	return name
 }
 
 func feltHex(t *Term) string { return "0x" + t.Big().Text(16) }
